@@ -63,6 +63,12 @@ func (h ProtectedHeader) MarshalCBOR() ([]byte, error) {
 		if err != nil {
 			return nil, err
 		}
+		// Do not emit what this library's own decoder refuses, e.g. integers
+		// beyond the int64 range or text that is not valid UTF-8.
+		var decoded map[any]any
+		if err := decMode.Unmarshal(encoded, &decoded); err != nil {
+			return nil, fmt.Errorf("protected header: %w", err)
+		}
 	}
 	return encMode.Marshal(encoded)
 }
@@ -252,8 +258,10 @@ func (h UnprotectedHeader) MarshalCBOR() ([]byte, error) {
 		return nil, err
 	}
 	// The unprotected header is decoded as part of the enclosing structure,
-	// where CBOR tags are not allowed: do not emit what cannot be decoded.
-	if err := decModeWithTagsForbidden.Wellformed(encoded); err != nil {
+	// where CBOR tags are not allowed: do not emit what cannot be decoded
+	// (tags, integers beyond the int64 range, text that is not valid UTF-8).
+	var decoded map[any]any
+	if err := decModeWithTagsForbidden.Unmarshal(encoded, &decoded); err != nil {
 		return nil, fmt.Errorf("unprotected header: %w", err)
 	}
 	return encoded, nil
